@@ -12,7 +12,7 @@ ast/ast.go and ast/ast_gop.go on every run (Generated/Spans.lean), evaluated by
 Specification: the hand-written layout of each kind (extract/c17_layout.txt → `layout`): the
 node's own tokens and children in source order.
 
-Proved here, for every kind with a layout (all 16 XGo-specific kinds except File, and 48 Go
+Proved here, for every kind with a layout (all 16 XGo-specific kinds except File, and 49 Go
 kinds; `unspecified` lists the rest) and for all field values:
   Pos() = start of the first element present, End() = stop of the last element present
   (so, by the same statement for the children, first/last *token*), and when the elements are in
@@ -35,12 +35,12 @@ Model/SpanOpaque.lean, shared with the driver. -/
 
 def posCanon (k : Kind) : Bool :=
   match layout k with
-  | some l => decide (posBody k = canonPos l)
+  | some l => decide (posBody k = prune [] (canonPos l))
   | none => false
 
 def endCanon (k : Kind) : Bool :=
   match layout k with
-  | some l => decide (endBody k = canonEnd l)
+  | some l => decide (endBody k = prune [] (canonEnd l))
   | none => false
 
 /-- The XGo-specific kinds (ast/ast_gop.go) other than File. -/
@@ -50,7 +50,7 @@ def xgoKinds : List Kind :=
    .ComprehensionExpr, .ForPhraseStmt, .SendStmt]
 
 /-- Kinds without a layout: their Pos/End lie outside the canonical fragment. -/
-def unspecified : List Kind := [.FieldList, .CallExpr, .FuncType, .ValueSpec, .GenDecl, .File]
+def unspecified : List Kind := [.FieldList, .FuncType, .ValueSpec, .GenDecl, .File]
 
 /-- Every kind is specified or explicitly listed as not. -/
 theorem C17_layout_coverage :
@@ -59,7 +59,8 @@ theorem C17_layout_coverage :
 
 theorem C17_xgo_kinds_specified : ∀ k ∈ xgoKinds, k ∈ specified := by decide
 
-/-- The Pos() method of every specified kind IS the canonical "start of the first element". -/
+/-- The Pos() method of every specified kind IS the canonical "start of the first element"
+(up to `prune`: tests already decided by an enclosing identical test are dropped). -/
 theorem C17_pos_bodies_canonical : ∀ k ∈ specified, posCanon k = true := by decide
 
 /-- The End() method of every specified kind IS the canonical "stop of the last element". -/
@@ -74,7 +75,7 @@ theorem C17_pos_exact (k : Kind) (hk : k ∈ specified) (l : List (Item Fld)) (h
     evalBody opaqueSem vals kids (posBody k) = some (firstStart (elems vals kids l)) := by
   have h := C17_pos_bodies_canonical k hk
   simp only [posCanon, hl, decide_eq_true_eq] at h
-  rw [h]
+  rw [h, prune_sound opaqueSem vals kids _ [] (by intro p hp; cases hp)]
   exact canonPos_sound opaqueSem vals kids l hwf
 
 /-- End is exact: End() returns the stop of the last element present. -/
@@ -83,7 +84,7 @@ theorem C17_end_exact (k : Kind) (hk : k ∈ specified) (l : List (Item Fld)) (h
     evalBody opaqueSem vals kids (endBody k) = some (lastStop (elems vals kids l)) := by
   have h := C17_end_bodies_canonical k hk
   simp only [endCanon, hl, decide_eq_true_eq] at h
-  rw [h]
+  rw [h, prune_sound opaqueSem vals kids _ [] (by intro p hp; cases hp)]
   exact canonEnd_sound opaqueSem vals kids l hwf
 
 /-- Children (and own tokens) lie within the node's span: when the elements are in source
